@@ -93,6 +93,7 @@ type c18in struct {
 	CbFail  int      `json:"cb_fail"`                   // -1 none
 	BufSize int      `json:"initial_buf"`
 	Boxes   []c18box `json:"boxes,omitempty"` // when the stream was built from well-formed boxes
+	NoModel bool     `json:"oracle_only,omitempty"` // large stream: judged by the oracle, not evaluated in Coq
 }
 
 type c18box struct {
@@ -102,7 +103,7 @@ type c18box struct {
 
 type c18obs struct {
 	Cbs []c18cb
-	Res int // 0 nil 1 read error 2 callback error 3 other error 8 hang
+	Res int // 0 nil 1 read error 2 callback error 3 other error 8 hang 9 panic
 	Err string
 }
 
@@ -112,6 +113,11 @@ func c18run(in c18in) c18obs {
 	done := make(chan c18obs, 1)
 	go func() {
 		var obs c18obs
+		defer func() {
+			if rec := recover(); rec != nil {
+				done <- c18obs{Res: 9, Err: fmt.Sprint("panic: ", rec)}
+			}
+		}()
 		r := &schedReader{data: in.Stream, sched: in.Sched, eofData: in.EOFData, hard: in.Hard, kind: in.Kind}
 		var buf []byte
 		if in.BufSize > 0 {
@@ -398,6 +404,68 @@ func runC18(c *lib.Ctx) error {
 			c.Count(fmt.Sprintf("read-error/kind-%d", kind))
 		}
 	}
+	// 3c. large boxes and growing chunks: the buffer has to grow while it is much larger than its content
+	// (initial buffers between 1 KiB and the chunk size, a later chunk clearly larger than the first)
+	{
+		nLarge := 6
+		if c.Thorough() {
+			nLarge = 40
+		}
+		bigBufs := []int{0, 1024, 1900, 2500, 3000, 4096, 6000, 12000, 40000}
+		for i := 0; i < nLarge; i++ {
+			var s []byte
+			var bl [][]byte
+			var ty []string
+			var meta []c18box
+			nChunks := 2 + rng.Intn(3)
+			size := 1500 + rng.Intn(3000)
+			for k := 0; k < nChunks; k++ {
+				mo := mkbox("moof", randPayload(40+rng.Intn(200)))
+				md := mkbox("mdat", randPayload(size))
+				for _, b := range [][]byte{mo, md} {
+					s = append(s, b...)
+					bl = append(bl, b)
+				}
+				ty = append(ty, "moof", "mdat")
+				meta = append(meta, c18box{"moof", len(mo) - 8}, c18box{"mdat", size})
+				switch i % 3 {
+				case 0:
+					size = size*2 + rng.Intn(2000) // growing
+				case 1:
+					size = 1500 + rng.Intn(20000)
+				}
+			}
+			exp := expectedChunks(bl, ty)
+			gid++
+			for _, bs := range bigBufs {
+				if !c.Thorough() && rng.Intn(2) == 0 && bs != 2500 {
+					continue
+				}
+				var sch []int
+				if rng.Intn(2) == 0 {
+					for tot := 0; tot < len(s)+10; {
+						k := 1 + rng.Intn(3000)
+						sch = append(sch, k)
+						tot += k
+					}
+				}
+				add(c18in{Stream: s, Sched: sch, EOFData: rng.Intn(2) == 0, CbFail: -1, BufSize: bs, Boxes: meta, NoModel: true}, gid, exp)
+				c.Count("large-boxes")
+			}
+		}
+		// every initial buffer size over a range, on the bundled chunked segment
+		if data, err := os.ReadFile("/repo/pkg/chunkparser/testdata/3_chunked.m4s"); err == nil {
+			gid++
+			step := 97
+			if c.Thorough() {
+				step = 7
+			}
+			for bs := 0; bs <= len(data)+1100; bs += step {
+				add(c18in{Stream: data, Sched: nil, EOFData: bs%2 == 0, CbFail: -1, BufSize: bs, NoModel: true}, gid, nil)
+				c.Count("bundled-vector/initial-buffer-sweep")
+			}
+		}
+	}
 	// 4. malformed size fields
 	sizes := []uint32{0, 1, 2, 3, 4, 5, 6, 7, 9, 12, 100, 1 << 16, 1 << 22}
 	for i := 0; i < nMal; i++ {
@@ -515,6 +583,10 @@ func runC18(c *lib.Ctx) error {
 			c.Fail(id, "hang", o.Err, in)
 			continue
 		}
+		if o.Res == 9 {
+			c.Fail(id, "panic", o.Err, in)
+			continue
+		}
 		if o.Res == 0 && in.CbFail < 0 {
 			var cat []byte
 			off := uint32(0)
@@ -565,6 +637,9 @@ func runC18(c *lib.Ctx) error {
 	for s := 0; s*shard < len(ins); s++ {
 		var terms []string
 		for i := s * shard; i < (s+1)*shard && i < len(ins); i++ {
+			if ins[i].NoModel {
+				continue
+			}
 			terms = append(terms, c18term(i, ins[i], obs[i]))
 		}
 		c.WriteCases(fmt.Sprintf("cases_C18_%d.v", s),
@@ -609,6 +684,9 @@ func replayC18(c *lib.Ctx) error {
 	}
 	if o.Res == 8 {
 		c.Fail("replay", "hang", o.Err, in)
+	}
+	if o.Res == 9 {
+		c.Fail("replay", "panic", o.Err, in)
 	}
 	if o.Res == 0 && in.CbFail < 0 && !bytes.Equal(cat, in.Stream) {
 		c.Fail("replay", "concat", "concatenated callback data differs from the input", in)
